@@ -162,6 +162,7 @@ class Engine:
         s.stats = dict(paths=0, forks=0, instrs=0)
         s.loop_bounds = {}; s.fn_seen = set(); s.opts = {}; s.is_final = False
         s.phase = 'layout'; s.tid = -1
+        s.ext_globals = []
         s.layout_globals()
         s.phase = 'init'
 
@@ -175,6 +176,8 @@ class Engine:
             al = max(g.align or 1, 16)
             a = (a + al - 1) // al * al
             s.gaddr[g.name] = a
+            if g.init is None and not g.name.startswith('@_ZTV') and not g.name.startswith('@_ZTI') and g.name not in ('@stderr', '@stdout', '@__dso_handle', '@environ', '@__libc_single_threaded'):
+                s.ext_globals.append((a, a + max(size_of(g.ty), 1), g.name))
             a += max(size_of(g.ty), 1)
         for g in s.mod.globals.values():
             if g.name in s.gaddr and g.init is not None:
@@ -223,6 +226,20 @@ class Engine:
             base = s.const_val(pv, None)
             return s.gep(base, bt, [(None, i.val if isinstance(i, Const) else s.const_val(i, None)) for i in idx])
         if c.kind == 'float': return 0
+        if c.kind == 'bin':
+            op, a, b = c.val; w = width_of(c.ty); x = s.const_val(a, c.ty); y = s.const_val(b, c.ty); m = mask(w)
+            sg = lambda v: v - (1 << w) if v >> (w - 1) else v
+            r = {'add': lambda: x + y, 'sub': lambda: x - y, 'mul': lambda: x * y, 'and': lambda: x & y, 'or': lambda: x | y, 'xor': lambda: x ^ y,
+                 'shl': lambda: x << y, 'lshr': lambda: x >> y, 'ashr': lambda: sg(x) >> y}[op]()
+            return r & m
+        if c.kind == 'icmp':
+            pred, a, b = c.val; w = width_of(c.ty); x = s.const_val(a, c.ty); y = s.const_val(b, c.ty)
+            sg = lambda v: v - (1 << w) if v >> (w - 1) else v
+            return int({'eq': x == y, 'ne': x != y, 'ugt': x > y, 'uge': x >= y, 'ult': x < y, 'ule': x <= y,
+                        'sgt': sg(x) > sg(y), 'sge': sg(x) >= sg(y), 'slt': sg(x) < sg(y), 'sle': sg(x) <= sg(y)}[pred])
+        if c.kind == 'select':
+            cc, a, b = c.val
+            return s.const_val(a, c.ty) if s.const_val(cc, IntTy(1)) else s.const_val(b, c.ty)
         raise Unsupported('const %r' % (c,))
 
     def gep(s, base, bt, idx):
@@ -283,6 +300,14 @@ class Engine:
         s.phase = 'init'
         p = Path(); p.mem = s.init_mem; p.sp = STACK_BASE
         s.tid = -1
+        if getattr(s, 'opts', {}).get('ctors', '0') == '1':
+            # program start-up: the translation units' static constructors, in @llvm.global_ctors order
+            g = s.mod.globals.get('@llvm.global_ctors')
+            if g is not None and g.init is not None and g.init.kind == 'agg':
+                for ent in g.init.val:
+                    fn = ent.val[1]
+                    if isinstance(fn, GlobalRef) and fn.name in s.mod.funcs and s.mod.funcs[fn.name].defined:
+                        s.exec_fn(p, s.mod.funcs[fn.name], [])
         outs = s.exec_fn(p, s.mod.funcs[fname], [])
         s.phase = 'threads'
 
@@ -765,6 +790,9 @@ class Engine:
             p.mem.store(a, size, s.ite_b(tobv(addr, 64) == a, val, old, 8 * size))
 
     def shared_load(s, p, addr, size, order, text, rmw=False):
+        if s.ext_globals and is_c(addr):
+            for (lo, hi, nm) in s.ext_globals:
+                if lo <= addr < hi: raise Unsupported('read of external data %s whose contents are not in the IR' % nm)
         if s.phase == 'init':
             if not is_c(addr): raise Unsupported('symbolic address in init')
             return s.init_mem.load(addr, size, undef=lambda a: 0), None
@@ -1413,7 +1441,7 @@ class Engine:
 
     def stub(s, p, f, ins, name, a):
         n = name[1:]
-        if n.startswith('llvm.lifetime') or n.startswith('llvm.dbg') or n.startswith('llvm.experimental.noalias') or n == 'llvm.assume':
+        if n.startswith('llvm.lifetime') or n.startswith('llvm.dbg') or n.startswith('llvm.experimental.noalias') or n == 'llvm.assume' or n.startswith('llvm.prefetch'):
             return 0
         site = (f.fn.name, f.block, f.ip)
         if n in ('_ZnwmSt11align_val_t', '_ZnamSt11align_val_t'): return s.alloc(p, a[0], a[1], site)
@@ -1520,7 +1548,7 @@ class Engine:
                 if x == 0: return k
                 k += 1
         if n in ('nanosleep',): return 0
-        if n in ('_ZNSt8ios_base4InitC1Ev', '_ZNSt8ios_base4InitD1Ev'): return 0
+        if n in ('_ZNSt8ios_base4InitC1Ev', '_ZNSt8ios_base4InitD1Ev', '_ZNSt3pmr15memory_resourceD2Ev'): return 0
         if n == 'sysconf': return 4096
         if n == '_ZNSt3pmr19new_delete_resourceEv': return 0x7100      # opaque default upstream (harnesses install their own)
         if n in ('pthread_mutex_lock', 'pthread_mutex_trylock'):
